@@ -29,6 +29,9 @@ SCEN = {
         "assign-global x spawn": sc([[S], ["spawn"]], 40, []),
         "collect x spawn": sc([[G], ["spawn"]], 36, []),
         "assign-global x exiting thread": sc([[S], [U]], 36, []),
+        # K = 60 covers one COMPLETE stop-scan-resume cycle and the other thread's wake-up after it
+        # (measured: unsat in 2181 s on a loaded machine; own cap of 2 h)
+        "assign-global x primitive-call, whole cycle": sc([[S], [P]], 60, []) + (7200,),
     },
 }
 
